@@ -86,8 +86,9 @@ def log_rat(r: Rat) -> Rat:
 
 
 class Interp:
-    def __init__(self, fn: ast.FunctionDef, dims: List[str], flags: Dict[str, bool]):
+    def __init__(self, fn: ast.FunctionDef, dims: List[str], flags: Dict[str, bool], init=None):
         self.fn = fn
+        self.init = init
         self.dims = dims
         self.flags = flags
         self.env: Dict[str, object] = {}
@@ -108,6 +109,20 @@ class Interp:
             idx = e.slice
             if isinstance(v, Val) and isinstance(idx, ast.UnaryOp) and isinstance(idx.operand, ast.Constant) and idx.operand.value == 1 and v.dims:
                 return dim_sym(v.dims[-1])
+        return None
+
+    def config_attr(self, name: str):
+        init = self.init
+        if init is None:
+            return None
+        for st in ast.walk(init):
+            if isinstance(st, ast.Assign) and any(self_attr(t) == name for t in st.targets):
+                if any(isinstance(x, ast.Name) and x.id == 'samples' for x in ast.walk(st.value)):
+                    return Rat.sym('configured_' + name)
+                try:
+                    return ToRat(lambda x: None)(st.value)
+                except Unsupported:
+                    return None
         return None
 
     def axis(self, call: ast.Call, pos: int) -> Optional[int]:
@@ -160,6 +175,15 @@ class Interp:
             if v is None:
                 raise Unsupported(e, f"{e.id} undefined")
             return v
+        s0 = self.shape_last(e)
+        if s0 is not None:
+            return s0
+        if isinstance(e, ast.Attribute) and self_attr(e) and self_attr(e) not in ('alpha', 'n'):
+            # an attribute fixed at construction: if it was computed from the configured sample shape it is a
+            # configuration-time quantity, independent of the request being evaluated
+            cfgv = self.config_attr(self_attr(e))
+            if cfgv is not None:
+                return cfgv
         if isinstance(e, ast.Constant) and isinstance(e.value, (int, float)):
             return Rat.const(str(e.value)) if not isinstance(e.value, bool) else Rat.const(int(e.value))
         a = self_attr(e)
@@ -185,6 +209,9 @@ class Interp:
                 s = self.shape_last(e.args[0])
                 if s is not None:
                     return log_rat(s)
+                v0 = self.value(e.args[0])
+                if isinstance(v0, Rat):
+                    return log_rat(v0)
             # method form / function form
             if isinstance(f, ast.Attribute) and dotted_name(f.value) not in ('torch', 'math'):
                 recv = self.value(f.value)
@@ -302,7 +329,8 @@ def check_tightness(ctx, rep):
         for dims in shapes:
             key = f"{cls.name}._call::sample-shape=[{','.join(dims)}]"
             try:
-                val = Interp(fn, dims, {'score': False, 'entropy': False}).run()
+                ir = cls.resolve('__init__')
+                val = Interp(fn, dims, {'score': False, 'entropy': False}, ir[1] if ir else None).run()
             except Unsupported as u:
                 # a value that still varies with the draw is a violation of "for every draw"
                 if 'varies with the draw' in str(u):
@@ -378,7 +406,55 @@ def check_sampling_order(ctx, rep):
                       f"{cls.name} differentiates through the samples and must use rsample")
 
 
+def check_dependencies(ctx, rep):
+    """'Each evaluation request draws fresh samples and evaluates both densities at those samples' relies on the draw invalidating the
+    cached values of q, p and the objective (C11.H machinery), and — for models written through constraining transforms — on the
+    Jacobian term being the one of the current value (C07.C machinery)."""
+    from props import c11, c07
+    names = list(OBJECTIVES) + ['torchtree.distributions.distributions.Distribution', 'torchtree.distributions.joint_distribution.JointDistributionModel',
+                                'torchtree.distributions.multivariate_normal.MultivariateNormal']
+    for qual in names:
+        cls = ctx.classes.find(qual)
+        if cls is None:
+            continue
+        for handler in ('handle_model_changed', 'handle_parameter_changed'):
+            r = cls.resolve(handler)
+            if r is None:
+                continue
+            if handler == 'handle_parameter_changed' and qual in OBJECTIVES:
+                continue  # objectives hold no parameters of their own
+            if handler == 'handle_parameter_changed' and qual.endswith('JointDistributionModel'):
+                continue
+            sm = c11.summarize(ctx, cls, r[0], r[1])
+            ok = ('lp_needs_update', True) in sm.sets and sm.fires_model
+            rep.check('C14.S', f"{cls.name}.{handler}::draw-invalidates-cached-value", ok, where(r[0].module, r[1]),
+                      {'sets': sorted(map(str, sm.sets)), 'fires_model_changed': sm.fires_model},
+                      f"{cls.name}.{handler} (resolved in {r[0].name}) does not, on every path, mark the cached value stale and notify its listeners: after a "
+                      f"new draw (or a parameter update between requests) the objective can return the value of the previous samples")
+
+    class Proxy:
+        def __init__(self, rep):
+            self._rep = rep
+
+        def __getattr__(self, name):
+            return getattr(self._rep, name)
+
+        def check(self, rule, key, cond, *a, **k):
+            return self._rep.check('C14.J', key, cond, *a, **k)
+
+        def bad(self, rule, key, *a, **k):
+            return self._rep.bad('C14.J', key, *a, **k)
+
+        def undecided(self, rule, key, *a, **k):
+            return self._rep.undecided('C14.J', key, *a, **k)
+    try:
+        c07.check_callers(ctx, Proxy(rep))
+    except Unsupported as u:
+        rep.undecided('C14.J', 'check_callers', '', str(u))
+
+
 def run(ctx, rep):
+    rep.rule('C14.J', "the Jacobian term a transformed parameter contributes is that of its current value (C07.C rules): models expressed through constraining transforms")
     rep.explanation = (
         "C14.T: the _call of ELBO, KLpq, VR and CUBO is abstractly interpreted with log p = log q + c for every draw (c = log marginal "
         "likelihood) over symbolic sample shapes [S] (and [S,K] for ELBO); values are 'qcoef·log q_s + const' with const a rational function "
@@ -394,3 +470,4 @@ def run(ctx, rep):
                         "conjugate models numerically", "Jacobian bookkeeping of transformed models (C19.J)"]
     check_tightness(ctx, rep)
     check_sampling_order(ctx, rep)
+    check_dependencies(ctx, rep)
